@@ -56,7 +56,7 @@ pub fn filter() -> BoxedStrategy<Filter> {
         id_list(),
         id_list(),
         id_list(),
-        (-1i64..=1, -1i64..=1, prop::sample::select(vec![0u8, 0, 0, 1, 2, 3])),
+        (-1i64..=1, -1i64..=1, prop::sample::select(vec![0u8, 0, 0, 0, 0, 0, 1, 2, 3, 4, 5])),
     )
         .prop_map(|(min_log_level, app_ids, ecu_ids, context_ids, (da, dc, special))| {
             let set_len = |l: &Option<Vec<String>>| l.as_ref().map(|v| v.iter().collect::<std::collections::BTreeSet<_>>().len() as i64).unwrap_or(0);
@@ -67,6 +67,14 @@ pub fn filter() -> BoxedStrategy<Filter> {
                 3 => {
                     a = 1000;
                     c = i64::MAX
+                }
+                4 => {
+                    a = i64::MIN;
+                    c = i64::MIN + 1
+                }
+                5 => {
+                    a = i64::MAX;
+                    c = i64::MIN
                 }
                 _ => {}
             }
